@@ -185,6 +185,8 @@ def run(repo, check):
     share(check, repo, c02.rule_r3, 'C10.R9', 'encoding the reduced message: missing = all ones of the width written (shared with C02.R3)')
     check.run_rule(rule_overrides, repo)
     share(check, repo, c01.rule_r7, 'C10.R10', 'missing detection when the reduced message is read back (shared with C01.R7)')
+    from sa.rules import columns
+    share(check, repo, columns.rule_columns, 'C10.R12', 'encoding the reduced message and reading it back: column round trip (shared with C05.R12)', args=(check.tier, 'C10.R12'))
     check.assumptions = ['the values of a decoded message are the rows of decoded_values_all_subsets (C01/C03); re-compression of the reduced columns is C05',
                          'validity of the re-encoded bytes for a particular message is a runtime fact']
 
